@@ -45,12 +45,19 @@ THOROUGH_EXTRA = {
 }
 
 
-def prepare_crate(run) -> str:
-    dst = os.path.join(run.scratch, "kani-crate")
+def harness_file(h: str) -> str:
+    return "kani/index_harness.rs" if h.startswith("index_") else "kani/comparison_harness.rs"
+
+
+def prepare_crate(run, files=None, tag: str = "") -> str:
+    """scratch copy of the crate with the harness files appended (all of them, or only `files` + the shared types)"""
+    dst = os.path.join(run.scratch, "kani-crate" + tag)
     if os.path.exists(dst):
         return dst
     subprocess.run(["rsync", "-a", "--exclude", "target", "--exclude", ".git", run.repo.root + "/", dst + "/"], check=True)
     for src, rel in APPEND:
+        if files is not None and src != "kani/types.rs" and src not in files:
+            continue
         with open(os.path.join(dst, rel), "a") as f:
             f.write(open(os.path.join(VERIF, src)).read())
     return dst
@@ -148,11 +155,24 @@ def run_for(run):
         return
     if run.tier == "quick" and run.prop == "C15":
         names = [n for n in names if n != "numbers_second_view"] + ["numbers_second_view"]
-    crate = prepare_crate(run)
+    # only the harness files this property needs are appended: a changed signature in another file must not break this build
+    files = sorted({harness_file(h) for h in names})
+    crate = prepare_crate(run, files)
     # a private target directory per run: concurrent checks must not share Kani's build artefacts
     target = os.path.join(run.scratch, "kani-target")
     cmd, out, wall = cargo_kani(crate, names, target)
     res = parse(out)
+    if len(files) > 1 and not any(res.get(h, {}).get("status") for h in names):
+        # nothing ran (the crate with both harness files does not build): one crate per harness file, so that the file whose
+        # functions kept their signatures is still decided
+        res, out = {}, ""
+        for i, fl in enumerate(files):
+            sub = [h for h in names if harness_file(h) == fl]
+            c2 = prepare_crate(run, [fl], tag=f"-{i}")
+            cmd2, out2, _ = cargo_kani(c2, sub, target + f"-{i}")
+            res.update(parse(out2))
+            out += out2
+            cmd += " ; " + cmd2
     run.checker_cmds.append(re.sub(r"\s+", " ", cmd))
     for h in names:
         unit, obl, kind = HARNESSES[h]
